@@ -62,6 +62,15 @@ def run_case(seed):
                 pf.fields[pos] = nm
         keys = c01.reader_keys(pf.fields)
         count("field names that are decimal numbers=yes")
+    r3 = random.Random(seed * 2953 + 17)
+    kwname = None
+    if r3.random() < 0.2:
+        # a field called like a keyword of OTHER tools (mandoline's level map, the all-fields selector): for whip a name
+        kwname = r3.choice(['grid_level', 'grid_level', 'all'])
+        if kwname not in pf.fields:
+            pf.fields[r3.randrange(len(pf.fields))] = kwname
+        keys = c01.reader_keys(pf.fields)
+    count(f"a field named like a keyword of other tools={kwname}")
     path = core.scratch_dir(f"c10_{seed}")
     gen.write_plotfile(pf, path)
     lv_sx = [gen.level_to_sx(pf, lv) for lv in range(pf.nlevels)]
@@ -70,6 +79,8 @@ def run_case(seed):
         count(f"layout={lk}")
     for k in range(3):
         variable = rng.choice(keys)
+        if kwname and k == 0:
+            variable = kwname
         comp = keys.index(variable)
         limit_arg = rng.choice([None] + list(range(pf.nlevels)))
         L = pf.nlevels - 1 if limit_arg is None else limit_arg
